@@ -60,6 +60,7 @@ structure Buf where
   data : Bytes
   /-- every write so far, newest first -/
   log : List Write
+  deriving DecidableEq
 
 /-- `lyd_path_str_enlarge`; `none` = `LY_EINCOMPLETE` (static buffer too small) -/
 def Buf.enlarge (b : Buf) (reqlen : Nat) : Option Buf :=
